@@ -147,11 +147,23 @@ func propDecisionTable(c *Case) {
 		span := age + time.Second
 		stale := "ini:stale@" + fmt.Sprintf("%x", key)
 
+		// the cached value may also be nil (negative caching) where the value type allows it
+		var staleVal interface{} = stale
+
+		// (the interface{} frontend cannot tell a cached nil from "no previous value" when an update
+		// fails, which the statement leaves open; there nil is only used in cells whose build succeeds)
+		nilOK := cl.variant >= 3 || (cl.variant != 2 && (cl.builderOK == 1 || cl.state == ksFresh) && cl.hit == 0)
+
+		if nilOK && c.Weighted("cached-nil", 4, 1) == 1 {
+			staleVal, stale = nil, ""
+			c.Class("cached-value-is-nil")
+		}
+
 		switch cl.state {
 		case ksFresh:
-			_ = w.be.Write(ttlCtx(span+24*time.Hour), key, stale)
+			_ = w.be.Write(ttlCtx(span+24*time.Hour), key, staleVal)
 		case ksStaleRecent, ksStaleOld:
-			_ = w.be.Write(ttlCtx(span-age), key, stale)
+			_ = w.be.Write(ttlCtx(span-age), key, staleVal)
 		}
 
 		time.Sleep(span)
@@ -224,7 +236,7 @@ func propDecisionTable(c *Case) {
 		c.Assert(done, "get-stuck", "Get did not return after the builder was released")
 		c.Tracef("Get = (%v, %v); builder invocations %d", res, resErr, invocations)
 
-		isStale := func() bool { return resErr == nil && valEq(w.be.Generic(), res, stale) }
+		isStale := func() bool { return resErr == nil && valEq(w.be.Generic(), res, staleVal) }
 		isNew := func() bool { return resErr == nil && valEq(w.be.Generic(), res, newTok) }
 		isErr := func(e error) bool { return resErr != nil && errors.Is(resErr, e) }
 		acceptable := cl.state == ksStaleRecent
